@@ -98,6 +98,10 @@ class IfWriteHandler(AbstractWriteHandler):
                             check_end_block=self.check_end_block,
                         )
                         v_after_else_branch = else_branch_handler.write_content()
+            else:
+                # There is no else-branch: the flow continues at the end label of the if. This matters, if the
+                # if-branch does not get there itself, because it ends with a jump.
+                v_after_else_branch = else_edge.target_vertex
 
             # Those must be the same, either None or a common vertex
             # ... or either of them must end on a jump, then it's also okay if one of them is None but the other not.
